@@ -6,6 +6,8 @@ import (
 	"go/token"
 	"go/types"
 	"math"
+	"runtime"
+	"runtime/debug"
 	"strings"
 
 	"golang.org/x/tools/go/ssa"
@@ -194,7 +196,11 @@ func (m *Machine) runFrame(fr *Frame) {
 		r := recover()
 		gp, ok := r.(*goPanicV)
 		if !ok {
-			panic(r) // path end or engine bug: propagate
+			if re, isRT := r.(runtime.Error); isRT {
+				// engine bug: keep the innermost Go stack and the interpreted stack
+				panic(pathEnd{Kind: "unsupported", Msg: fmt.Sprintf("engine bug: %v\n%s\ninterpreted stack:%s", re, debug.Stack(), m.stack())})
+			}
+			panic(r) // path end: propagate
 		}
 		fr.panicking = true
 		fr.panicV = gp
@@ -544,7 +550,9 @@ func (m *Machine) lookupMethod(t types.Type, meth *types.Func) *ssa.Function {
 	return m.P.Prog.LookupMethod(t, meth.Pkg(), meth.Name())
 }
 
-// concretize turns an integer term into a concrete int, case-splitting over 0..max.
+// concretize turns an integer term into a concrete int: every feasible value is
+// explored (model-guided enumeration: one query per feasible value plus one).
+// Values above max end the path as an unwinding-bound failure.
 func (m *Machine) concretize(t *Term, max int, what string) int {
 	if t.IsConst() {
 		return int(sext(t.Val, t.S.W))
@@ -552,21 +560,65 @@ func (m *Machine) concretize(t *Term, max int, what string) int {
 	if m.concrete != nil {
 		return int(sext(m.evalConcrete(t), t.S.W))
 	}
-	w := int(t.S.W)
-	conds := make([]*Term, max+2)
-	for i := 0; i <= max; i++ {
-		conds[i] = m.tt.Eq(t, m.tt.Const(w, uint64(i)))
+	if m.spec {
+		panic(specAbort{})
 	}
-	conds[max+1] = m.tt.Not(m.tt.Cmp(OpULE, t, m.tt.Const(w, uint64(max))))
-	k := m.choose(max+2, conds)
-	if k == max+1 {
-		// negative or too large
-		if m.branch(m.tt.Cmp(OpSLT, t, m.tt.Const(w, 0))) {
+	w := int(t.S.W)
+	finish := func(v uint64) int {
+		sv := sext(v, t.S.W)
+		if sv < 0 {
 			return -1
 		}
-		m.endPath("limit", fmt.Sprintf("%s exceeds engine bound %d (unwinding bound)", what, max))
+		if sv > int64(max) {
+			m.endPath("limit", fmt.Sprintf("%s = %d exceeds engine bound %d (unwinding bound)", what, sv, max))
+		}
+		return int(sv)
 	}
-	return k
+	if m.cursor < len(m.prefix) {
+		d := m.prefix[m.cursor]
+		m.cursor++
+		m.trace = append(m.trace, d)
+		eq := m.tt.Eq(t, m.tt.Const(w, d.Val))
+		if d.Forced {
+			m.setLit(eq, true)
+		} else {
+			m.assertPC(eq)
+		}
+		return finish(d.Val)
+	}
+	m.checkDepth()
+	var vals []uint64
+	excl := m.tt.True
+	for len(vals) <= max+2 {
+		r, v := m.sol.CheckWithValue(excl, t)
+		if r == Unknown {
+			m.noteUnknown("concretize " + what)
+			break
+		}
+		if r == Unsat {
+			break
+		}
+		vals = append(vals, v)
+		excl = m.tt.And(excl, m.tt.Not(m.tt.Eq(t, m.tt.Const(w, v))))
+	}
+	if len(vals) == 0 {
+		m.endPath("assume", "no feasible value for "+what)
+	}
+	for _, v := range vals[1:] {
+		alt := make([]Dec, len(m.trace)+1)
+		copy(alt, m.trace)
+		alt[len(m.trace)] = Dec{Val: v, IsVal: true}
+		m.newWork = append(m.newWork, alt)
+	}
+	forced := len(vals) == 1
+	m.trace = append(m.trace, Dec{Val: vals[0], IsVal: true, Forced: forced})
+	eq := m.tt.Eq(t, m.tt.Const(w, vals[0]))
+	if forced {
+		m.setLit(eq, true)
+	} else {
+		m.assertPC(eq)
+	}
+	return finish(vals[0])
 }
 
 func (m *Machine) makeSlice(et types.Type, ln, cp int) *SliceV {
